@@ -65,7 +65,7 @@ def w_rules(P, E):
     aw, held, sh = _acqs(P, poll, "waker")
     ad, _, _ = _acqs(P, poll, "done")
     r.instance(("W1", poll.nid), True, "waker acqs %s done acqs %s" % ({k: v["mode"] for k, v in aw.items()}, list(ad)))
-    if len(aw) != 1 or list(aw.values())[0]["mode"] != "W":
+    if len(aw) != 1 or list(aw.values())[0]["mode"] not in ("W", "M"):
         r.violate(("W1", poll.nid, "waker not held by one write guard"),
                   "poll does not take exactly one write guard of `waker` (found %s): the done test and the waker store are "
                   "not one critical section, a terminal in between is lost" % [v["mode"] for v in aw.values()], body=poll)
